@@ -887,6 +887,9 @@ func c04ParserFrontier(ctx *Ctx, r *Report) {
 						if ok && is.Pos() < ix.Pos() && endsInExit(is.Body) && mentionsBase(is.Cond) {
 							guard = "earlier guard on the same slice (" + exprString(is.Cond) + ") that leaves the function"
 						}
+						if ok && is.End() < ix.Pos() && is.Else == nil && mentionsBase(is.Cond) && strings.Contains(exprString(is.Cond), "== 0") && repairsEmptiness(info, is.Body, base) {
+							guard = "earlier test of the same slice (" + exprString(is.Cond) + ") whose body makes it non-empty"
+						}
 						if sw, ok := k.(*ast.SwitchStmt); ok && containsNode(sw, ix) {
 							for _, cc := range sw.Body.List {
 								cl := cc.(*ast.CaseClause)
